@@ -36,6 +36,10 @@ class C15(Prop):
     TRUSTED = ("model: JobDirs/Model.v and DataReg/Model.v are hand-written; os.path.join, pathlib mkdir/resolve, "
                "uuid4 and the local connector are not verified, only exercised",)
     ASSUMPTIONS = ("utils.random_name() never returns the same name twice (uuid4)",
+                   "the real path of a job directory is the same on every allocated location: the code resolves each "
+                   "directory on the FIRST location only (step.py _set_job_directories) and registers that string on "
+                   "all of them",
+                   "a fixed directory is a non-empty string ('' is falsy in _get_directory and draws a name like None)",
                    "the work directory of the target is not a symbolic link (realpath == directory)")
 
     def gen(self, rng, tier):
@@ -46,7 +50,8 @@ class C15(Prop):
             fix = []
             for role in ("in", "out", "tmp"):
                 r = rng.random()
-                fix.append(None if r < 0.6 else rng.choice([f"fixed/{role}", f"fixed {role}", f"fx/{role}/deep", "shared"]))
+                fix.append(None if r < 0.55 else "" if r < 0.62 else
+                           rng.choice([f"fixed/{role}", f"fixed {role}", f"fx/{role}/deep", "shared"]))
             c = {"f": "sched", "n": 1 if i == 0 else rng.randrange(2, hi + 1), "fix": fix}
             if i % 2 == 1:
                 # shell-backed remote deployment with 2..3 nodes; a job takes 1 or 2 of them
@@ -159,7 +164,7 @@ class C15(Prop):
             shell = c.get("dep") == "shell"
             vbase = m["VROOT"] if shell else base          # what the step sees as the root of its directories
             wd = vbase + "/wd"
-            fixed = [vbase + "/" + f if f else None for f in c["fix"]]
+            fixed = [vbase + "/" + f if f else f for f in c["fix"]]      # None stays None, "" stays ""
             wf = m["Workflow"](ctx, config={}, name="w")
             if shell:
                 dc = m["DeploymentConfig"](name="nodes", type="sfv-shellnodes",
@@ -254,9 +259,9 @@ class C15(Prop):
                     return ("exists", f"job {j['name']}: {role} directory {d} does not exist on location(s) {ex}")
                 if rg:
                     return ("registered", f"job {j['name']}: {role} directory {d} is not registered on location(s) {rg}")
-                if fx is not None and d != "/B/" + fx:
+                if fx and d != "/B/" + fx:
                     return ("fixed", f"job {j['name']}: {role} directory fixed to /B/{fx} but is {d}")
-                if fx is None:
+                if not fx:
                     if d in fixed:
                         return ("distinct", f"job {j['name']}: {role} directory {d} collides with a fixed directory")
                     if d in seen and seen[d] != j["name"]:
@@ -276,7 +281,7 @@ class C15(Prop):
             if any(d is None or d.startswith("!") for d in j["dirs"]):
                 return None
             for d, fx in zip(j["dirs"], c["fix"]):
-                names.append(comps(d)[-1] if fx is None else "")
+                names.append(comps(d)[-1] if not fx else "")
             jobs.append(f"CJob {self._cpath(j['dirs'][0])} {self._cpath(j['dirs'][1])} {self._cpath(j['dirs'][2])} "
                         f"{coq_bool(not any(j['exist']))} {coq_bool(not any(j['registered']))}")
         f = "mkfixed " + " ".join(coq_opt(("/B/" + x) if x else None, self._cpath) for x in c["fix"])
